@@ -61,7 +61,7 @@ def run(chk):
     chk.ob('R20.1', 'index guard n < extent matches the table extent', ok, why, ms.where(f), method='AST + recorded C array extent')
     # recursion: tgamma(n+1)/cf(n-1) == n!/(n-1)!! == n!!
     it = Interp(repo, hooks={'call': lambda itp, fr_, args, kw, e, frm: (X.fn('DF', X.lift(args[0])) if isinstance(fr_, FuncRef) and fr_.node.name == 'cf_double_factorial' and itp.depth >= 1 else NotImplemented),
-                             'if_test': lambda itp, st, frm: ({'n < 51': False, 'n >= 51 and n < 171': True}.get(ast.unparse(st.test)))})
+                             'if_test': lambda itp, st, frm: (False if isinstance(st.test, ast.Compare) else (True if isinstance(st.test, ast.BoolOp) else None))})
     n = X.atom('n', 'pos')
     rec = it.call(ms, f, [n])
     d = X.Decider(seed=chk.seed, k=3)
